@@ -1,13 +1,47 @@
 (* Props/C06.v — Anything built through the API encodes to valid TOML that decodes back.
    Only statements, each closed by `exact`; proofs are in Proofs/BuiltRT*.v.
-   The construction API, the set `Built*` of trees it reaches and the abstract tree `abs_*`
-   are in Model/Build.v. *)
+
+   Model/Build.v holds the construction API (functions on Model/Tree.v trees, one per Rust
+   constructor), the terms `cval` / `citem` that compose them with `eval_*`, the set `Built*` of
+   trees they reach (parametrised by the admissible leaves and keys), the abstract tree `abs_*`,
+   and `float_text` / `render_*`: std's float printing is an oracle (DESIGN.md 4.4), a float without
+   a stored repr is kept as the exact decimal its text denotes and `render_*` hands that text to
+   the printer of Model/Encode.v as the float's repr.
+
+   Not in `Built` (and why): an `Item::Table` below an inline table (InlineTable::insert and
+   Array::push take a Value; only IndexMut on an inline-table parent can put one there, and the
+   printer drops it: DESIGN.md F13), `Item::None`, the formatting switches (set_implicit,
+   set_dotted, set_position, decor setters, *_formatted inserts). *)
 From TV Require Import Base.Prelude Base.Utf8 Base.Winnow Gen.Consts.
-From TV Require Import Model.Datetime Model.Numbers Model.Tree Model.Parse Model.Document Model.Write Model.Encode Model.Build.
-From TV Require Import Proofs.BuiltRTBase.
+From TV Require Import Model.Datetime Spec.DatetimeSpec Model.Numbers Model.Tree Model.Parse Model.Document Model.Write Model.Encode Model.Build.
+From TV Require Import Proofs.BuiltRTBase Proofs.BuiltRTEncode Proofs.BuiltRTValue Proofs.BuiltRTLeaf Proofs.BuiltRTTop.
+
+(* ---- values --------------------------------------------------------------------------------------
+   every value assembled from admissible leaves (`scalar_ok`: UTF-8 strings, i64 integers, floats
+   nan / inf / decimals below the overflow threshold, in-range date-times), UTF-8 keys, arrays and
+   inline tables nested to any depth below the parser's recursion limit, prints (Display for Value /
+   Array / InlineTable) as text that Value::from_str reads back as a value with the same abstract
+   tree: same types, same scalars, same keys, same element and key order.
+   `top_plain`: the value's own decor prefix prints as nothing (true of every value fresh from a
+   constructor; a value taken out of an array keeps the blank Array::push gave it, prints as ` 1`,
+   and Value::from_str does not accept a leading blank). *)
+Theorem C06_value : forall v,
+  BuiltValue scalar_ok key_ok v -> value_depth v < LIMIT -> top_plain v ->
+  exists v', parse_value_raw (display_value (render_value float_text v)) = POk v' /\ abs_value v' = abs_value v.
+Proof. exact built_value_roundtrip. Qed.
+Print Assumptions C06_value.
 
 (* Key::new(k).to_string() is read back by Key::from_str as the key k, for every string k *)
 Theorem C06_key : forall k, utf8_valid_b k = true ->
   exists r, parse_key (key_display_repr (key_new k)) = POk (r, k).
 Proof. exact key_roundtrip. Qed.
 Print Assumptions C06_key.
+
+(* the printer's text for a constructed value is the structural text `txt` between the value's decor:
+   no fuel, no dependence on anything but the tree (C06_pure: printing is a function in Gallina by
+   construction; on the implementation it is checked by printing twice and printing a clone) *)
+Theorem C06_text : forall PS PK v dflt fuel,
+  BuiltValue PS PK v -> value_size v < fuel ->
+  encode_value fuel (render_value float_text v) dflt = etxt float_text v dflt.
+Proof. exact (fun PS PK v dflt fuel H Hf => encode_value_txt float_text PS PK v H fuel dflt Hf). Qed.
+Print Assumptions C06_text.
